@@ -21,7 +21,7 @@ ADDED = {
  "C13": "Also: programs at log verbosity 5, and a burst of thousands of flows ingested and expired by concurrent goroutines (each exported exactly once). Stop while messages arrive (defect D27); pool messages that hold two records of a stream and end with a refused record. Stop right after 'go Start()' (defect D31); nodes whose templates lack correlate elements, under the race detector.",
  "C14": "Also: JSON-mode exporters under refresh activity, the idle-close scenario over TLS, the real refresh ticker over DTLS, and a refresh round that cannot rebuild a registered template (next SendSet and Close must return). Template sets of several records that repeat templates already sent, and udp exporters configured with a connection-check interval. Sequence numbers of retransmitted templates against what is on the wire (defect D22); a peer that writes before it closes (D25). TLS sessions the collector ends without close_notify (defect D29), overlapping Close calls on a connection that closes slowly (defect D30, hook VerifWrapConn), templates registered between ticks of the real ticker.",
  "C15": "Also: every registry element of a supported type once per position, and one unknown element announced with every length 1..64 and variable-length in one lenient collector.",
- "C16": "Also: element lists holding an element whose declared type has no encoder. Records around an element without encoder judged field by field, and add calls that name another template id than the set's. Records of zero width. Histories that grow a set beyond 65535 bytes through all three add paths.",
+ "C16": "Also: element lists holding an element whose declared type has no encoder. Records around an element without encoder judged field by field, and add calls that name another template id than the set's. Records of zero width. Fixed histories that grow a set beyond 65535 bytes through all three add paths.",
  "C17": "Also: templates of 60-140 fields and unknown elements under enterprise numbers above 2^16 that alias registered ones. Data sets that end with padding. The reverse registry must not hold the ids RFC 5103 lists as not reversible. MaxBufferSize of stream collectors (1024, 100, 1) as a dimension.",
  "C18": "Beyond the matrix: the collector addressed by host name, security settings with the network names tcp4/tcp6/udp4/udp6 (nothing may travel in clear), and a generated phase of server identities (intermediates presented / withheld / not a CA / expired, SAN lists with wildcards and IP literals, validity windows) judged by a predicate written from the statement. Trusted-then-untrusting exporter pairs with and without client key pairs, and server certificates 20 s from either end of their validity. The harness process allows TLS 1.0/1.1 servers (GODEBUG), so the library's own minimum version is what is tested.",
  "C19": "Also: KafkaLogSuccesses on, a slow broker side, messages with more records than the queues hold, and a watchdog for a producer that stops making progress. One producer publishing from two channels at once. A broker side that stalls for seconds in mid-stream.",
